@@ -16,7 +16,7 @@ import z3
 
 from . import loader, summaries, models, shapes, collections, melmodels, bigmodels
 import re as _re
-from .interp import Inconclusive, Unsupported, simp
+from .interp import Inconclusive, Unsupported, simp, G
 from .mirparse import MirSyntax
 
 VERIF = os.path.dirname(os.path.dirname(os.path.abspath(__file__)))
@@ -112,6 +112,7 @@ class Check:
         self.timeout_ms = 60000 if tier == 'quick' else 600000
         self.interp = None
         self.known = self._load_known()
+        self.decided_by = {}
         self.extra = {}
         z3.set_param('smt.random_seed', seed % (2 ** 31))
         z3.set_param('sat.random_seed', seed % (2 ** 31))
@@ -144,22 +145,73 @@ class Check:
             self.assumptions.append(text)
 
     # ---- solving ----
-    def solve(self, constraints, timeout_ms=None):
+    def _z3(self, constraints, timeout_ms):
         s = z3.Solver()
-        s.set('timeout', timeout_ms or self.timeout_ms)
+        s.set('timeout', int(timeout_ms))
         s.set('random_seed', self.seed % (2 ** 31))
         for c in constraints:
             s.add(c)
-        t0 = time.time()
+        for c in G.facts:
+            s.add(c)
         r = s.check()
+        if r == z3.sat:
+            return 'sat', s.model(), s
+        if r == z3.unsat:
+            return 'unsat', None, s
+        return 'unknown', s.reason_unknown(), s
+
+    def _cvc5(self, solver, extra_args, timeout_s):
+        """second opinion / stronger arithmetic: the same query as SMT-LIB2 text through cvc5"""
+        os.makedirs(os.path.join(BUILD, 'smt'), exist_ok=True)
+        path = os.path.join(BUILD, 'smt', 'q_%d_%d.smt2' % (os.getpid(), self.queries))
+        txt = solver.to_smt2()
+        if 'bvumul_noovfl' in txt or 'bvsmul_noovfl' in txt or 'bvsmul_noudfl' in txt:
+            return 'unknown'
+        # z3 prints its internal "divisor known to be non-zero" operators; they coincide with the SMT-LIB ones there
+        for a, b in (('bvudiv_i', 'bvudiv'), ('bvurem_i', 'bvurem'), ('bvsdiv_i', 'bvsdiv'), ('bvsrem_i', 'bvsrem'),
+                     ('bvsmod_i', 'bvsmod')):
+            txt = txt.replace(a, b)
+        with open(path, 'w') as f:
+            f.write('(set-logic ALL)\n' + txt)
+        try:
+            r = subprocess.run(['cvc5', '--lang', 'smt2', '--tlimit=%d' % int(timeout_s * 1000)] + extra_args + [path],
+                               capture_output=True, text=True, timeout=timeout_s + 5)
+            out = r.stdout.strip()
+        except subprocess.TimeoutExpired:
+            out = 'timeout'
+        finally:
+            try:
+                os.remove(path)
+            except OSError:
+                pass
+        if '(error' in out or 'error' in out.lower():
+            return 'unknown'
+        first = out.split('\n')[0].strip() if out else ''
+        return first if first in ('sat', 'unsat') else 'unknown'
+
+    def solve(self, constraints, timeout_ms=None):
+        """portfolio: z3 (short) -> cvc5 with bit-vectors solved as integers -> cvc5 -> z3 (full budget).
+        A cvc5 `sat` is only used after z3 has produced a model for it."""
+        budget = timeout_ms or self.timeout_ms
+        t0 = time.time()
+        self.queries += 1
+        first = min(budget, 8000)
+        res, model, solver = self._z3(constraints, first)
+        decided_by = 'z3'
+        if res == 'unknown' and budget > first:
+            for args in (['--solve-bv-as-int=sum'], []):
+                r2 = self._cvc5(solver, args, min(45.0, budget / 1000.0))
+                if r2 == 'unsat':
+                    res, model, decided_by = 'unsat', None, 'cvc5 ' + ' '.join(args)
+                    break
+                if r2 == 'sat':
+                    break
+            if res == 'unknown':
+                res, model, solver = self._z3(constraints, budget)
         dt = time.time() - t0
         self.solver_s += dt
-        self.queries += 1
-        if r == z3.sat:
-            return 'sat', s.model(), dt
-        if r == z3.unsat:
-            return 'unsat', None, dt
-        return 'unknown', s.reason_unknown(), dt
+        self.decided_by[decided_by] = self.decided_by.get(decided_by, 0) + 1
+        return res, model, dt
 
     def solve_split(self, constraints, split):
         """decide `constraints` by case analysis over split=(term, [values]): one incremental solver,
@@ -173,6 +225,8 @@ class Check:
             s = z3.Solver()
             s.set('timeout', self.timeout_ms)
             for c in constraints:
+                s.add(c)
+            for c in G.facts:
                 s.add(c)
             s.add(term == v)
             r = s.check()
@@ -336,6 +390,7 @@ class Check:
             'symbolic_calls': it.stats['calls'] if it else 0,
             'forks': it.stats['forks'] if it else 0,
             'status': status,
+            'decided_by': self.decided_by,
             'known_findings_printed': self.known_printed,
             'translation_validation_samples': self.tv_samples[:5],
             'explanation': 'states = feasible symbolic paths explored to completion; transitions = MIR basic blocks '
